@@ -2,19 +2,20 @@
     text into a UNIX epoch as spowtd.load.generate_timestamped_rows performs it:
     strptime, tz.localize(dt) (pytz, is_dst=False), .timestamp().
 
-    A zone is the offset in force before the first transition and the list of
-    (UTC instant, offset from then on, daylight-saving flag), in increasing
-    order of instants — the table pytz builds from the TZif file (offsets as
-    pytz keeps them).  [ideal_localize] is the *specification* of localize:
-    every UTC instant whose local rendering is the given local time is a
-    candidate (found by trying every offset of the zone); an ambiguous local
-    time resolves to a candidate not on daylight-saving time when there is
-    one, and to the latest candidate among those that remain — what pytz
-    documents for is_dst=False.  pytz's own search (the two offsets in force a
-    day before and a day after) is not modelled: it is an oracle compared with
-    this specification on every run.
+    A zone is the rule in force before the first transition and the list of
+    (UTC instant, rule from then on) — a rule = (offset, daylight-saving flag) —
+    as pytz builds it from the TZif file (offsets as pytz keeps them, rounded to
+    whole minutes).  [ideal_localize] is the *specification* of localize: every
+    UTC instant whose local reading is the given local time is a candidate
+    (found by trying every offset of the zone); an ambiguous local time
+    resolves to a candidate not on daylight-saving time when there is one, and
+    to the latest candidate among those that remain — what pytz documents for
+    is_dst=False; a local time without candidate (skipped by a forward
+    transition) is converted as pytz does, by [localize_back].  pytz's own
+    search (the two rules in force a day before and a day after) is not
+    modelled: it is an oracle compared with this specification on every run.
 
-    Definitions only; proofs are in Proofs/TimeZone*.v. *)
+    Definitions only; proofs are in Proofs/TimeZoneSpec.v. *)
 From Spowtd Require Export Model.Calendar.
 From Coq Require String.
 Local Open Scope Z_scope.
@@ -36,9 +37,17 @@ Definition local_of (z : zone) (e : Z) : Z := e + tt_off (info_at z e).
 
 Definition infos (z : zone) : list ttinfo := z_first z :: map snd (z_trans z).
 
+(** The distinct offsets of the zone's rules. *)
+Fixpoint dedup (l : list Z) : list Z :=
+  match l with
+  | [] => []
+  | x :: t => if mem_Z x t then dedup t else x :: dedup t
+  end.
+Definition offsets (z : zone) : list Z := dedup (map tt_off (infos z)).
+
 (** All UTC instants whose local reading is lt. *)
 Definition candidates (z : zone) (lt : Z) : list Z :=
-  filter (fun e => local_of z e =? lt) (map (fun i => lt - tt_off i) (infos z)).
+  filter (fun e => local_of z e =? lt) (map (fun o => lt - o) (offsets z)).
 
 Fixpoint zmax_list (a : Z) (l : list Z) : Z :=
   match l with [] => a | b :: t => zmax_list (Z.max a b) t end.
@@ -51,12 +60,39 @@ Definition ideal_localize (z : zone) (lt : Z) : option Z :=
   | e :: r => Some (zmax_list e r)
   end.
 
+(** A local time that does not exist in the zone (skipped by a forward
+    transition): pytz's localize(dt, is_dst=False) answers
+    localize(dt - 6 h, is_dst=False) + 6 h — the instant six hours after the
+    one whose local reading is six hours earlier, i.e. the reading taken on
+    the clock as it ran before the jump — and recurses while the earlier
+    reading does not exist either (a zone that skipped a whole day).  [fuel]
+    bounds that recursion (Python's is bounded by the interpreter's limit). *)
+Definition six_hours : Z := 21600.
+
+Fixpoint localize_back (fuel : nat) (z : zone) (lt : Z) : option Z :=
+  match ideal_localize z lt with
+  | Some e => Some e
+  | None =>
+      match fuel with
+      | O => None
+      | S f =>
+          match localize_back f z (lt - six_hours) with
+          | Some e => Some (e + six_hours)
+          | None => None
+          end
+      end
+  end.
+
+Definition back_fuel : nat := 12.
+
 (** Outcome of converting one timestamp text. *)
 Inductive stamped : Set :=
-| Stamp (e : Z)      (* the row is staged with epoch e *)
+| Stamp (e : Z)      (* the row is staged with epoch e; the local time exists *)
+| Shifted (e : Z)    (* the local time does not exist in the zone; the row is
+                        staged with epoch e all the same (see above): outside
+                        the property's quantifier, but it is what the code does *)
 | Refuse             (* ValueError: the text is not a timestamp *)
-| Skipped.           (* the local time does not exist in the zone (skipped by a
-                        forward transition): outside the property's quantifier *)
+| Skipped.           (* no existing local time within 12 x 6 h before: not modelled *)
 
 Definition stamp (z : zone) (s : String.string) : stamped :=
   match parse_datetime s with
@@ -64,29 +100,52 @@ Definition stamp (z : zone) (s : String.string) : stamped :=
   | Some c =>
       match ideal_localize z (local_secs c) with
       | Some e => Stamp e
-      | None => Skipped
+      | None =>
+          match localize_back back_fuel z (local_secs c) with
+          | Some e => Shifted e
+          | None => Skipped
+          end
       end
   end.
+
+(** The epoch staged for a text, if any. *)
+Definition stamp_epoch (r : stamped) : option Z :=
+  match r with Stamp e | Shifted e => Some e | Refuse | Skipped => None end.
 
 (** The text a stored epoch renders to in the zone. *)
 Definition render_text (z : zone) (e : Z) : String.string :=
   render_datetime (civil_of_secs (local_of z e)).
 
-Definition stamped_eqb (a b : stamped) : bool :=
-  match a, b with
-  | Stamp x, Stamp y => x =? y
-  | Refuse, Refuse => true
-  | Skipped, Skipped => true
-  | _, _ => false
-  end.
+(** Case check used by the generated files: (text, what the implementation
+    did: [Stamp e] = yielded epoch e, [Refuse] = ValueError, [Skipped] = any
+    other exception).  One evaluation of the model per case; the code says
+    how the model classifies the text and whether the implementation agrees:
+    0 = existing local time, same epoch; 1 = non-existent local time
+    (shifted), same epoch; 2 = refused by both; 3 = the model ran out of fuel
+    (nothing compared); 4 / 5 / 6 = DISAGREEMENT where the model says
+    existing / shifted / refused. *)
+Definition stamp_code (z : zone) (c : String.string * stamped) : nat :=
+  match stamp z (fst c), snd c with
+  | Skipped, _ => 3
+  | Stamp x, Stamp y => if (x =? y)%Z then 0 else 4
+  | Stamp _, _ => 4
+  | Shifted x, Stamp y => if (x =? y)%Z then 1 else 5
+  | Shifted _, _ => 5
+  | Refuse, Refuse => 2
+  | Refuse, _ => 6
+  end%nat.
 
-(** Case check used by the generated files: on a text the model classifies as
-    a skipped local time nothing is compared. *)
-Definition stamp_case_ok (z : zone) (c : String.string * stamped) : bool :=
-  match stamp z (fst c) with
-  | Skipped => true
-  | r => stamped_eqb r (snd c)
+(** (index, code) of the cases whose code is not 0. *)
+Fixpoint codes_from {A} (f : A -> nat) (l : list A) (i : nat) : list (nat * nat) :=
+  match l with
+  | [] => []
+  | c :: t => match f c with
+              | O => codes_from f t (S i)
+              | k => (i, k) :: codes_from f t (S i)
+              end
   end.
+Definition stamp_codes (z : zone) (l : list (String.string * stamped)) : list (nat * nat) :=
+  codes_from (stamp_code z) l 0.
 
 (** Zone tables travel as (first offset, first dst, [(instant, offset, dst)]). *)
 Definition mk_zone (o : Z) (d : bool) (tr : list (Z * Z * bool)) : zone :=
